@@ -227,21 +227,24 @@ func suiteV19(c *vctx) {
 			os.MkdirAll(dir, 0755)
 			log := filepath.Join(c.work, fmt.Sprintf("slow%d.log", ki))
 			os.Remove(log)
-			// runs for 1.5 R (the last variant: 2.5 R, alive over two rounds), then ends
+			// runs for 1.5 R, then ends; the LAST change arrives while it is alive (the last variant: alive
+			// over two further rounds, 3.5 R)
 			dur := 3 * Rms / 2
+			offs := []int64{0, Rms + 100}
 			if ki == 3 {
-				dur = 5 * Rms / 2
+				dur = 7 * Rms / 2
+				offs = []int64{0, Rms + 100, 2*Rms + 250}
 			}
 			os.WriteFile(filepath.Join(dir, "hook.sh"), []byte(fmt.Sprintf(hookScript, log)+fmt.Sprintf("sleep %d.%03d\n%s\n", dur/1000, dur%1000, ending)), 0755)
 			h := newHC(dir, "/slow", R)
 			start := time.Now()
 			var last int64
-			for _, o := range []int64{0, Rms + 100, 2*Rms + 250} {
+			for _, o := range offs {
 				time.Sleep(time.Until(start.Add(time.Duration(o) * time.Millisecond)))
 				last = time.Now().UnixNano()
 				h.Notify <- true
 			}
-			time.Sleep(3*R + 300*time.Millisecond)
+			time.Sleep(time.Duration(dur)*time.Millisecond + 2*R)
 			followed := false
 			runs := readHookLog(log)
 			for _, x := range runs {
